@@ -683,6 +683,12 @@ func execScenario(sc *Scenario, opt lib.GenOptions, withTrace bool) *ExecResult 
 				r.hit("reopened-window-still-persisted")
 			}
 		}
+		// round 6: a block that Store must refuse, offered on the state of the fork point
+		if rd.Refused != nil {
+			if done := offerRefused(r, sc, rd, ri, a, b, line, u, chain, implicit, storeOn); done {
+				return r
+			}
+		}
 		// the fork
 		for j, spec := range rd.Fork {
 			bd, err := line.Next(spec)
